@@ -379,6 +379,7 @@ impl Prop for C07 {
         ]
     }
     fn run(&self, ctx: &Ctx) {
+        ctx.journal_bytes.set(true);
         let cases = ctx.tier.pick(600u32, 9_000u32);
         ctx.run_bytes("session", cases, 1536, case);
         // ladder
